@@ -182,7 +182,9 @@ func New19(cp, pre int) *H19 {
 	fl := asm.Flags(vp.U8("tracked-flags"))
 	h.E.AssumeSEP(fl)
 	h.Dry.AssumeSEP(fl)
-	if vp.Choose("setbase", 2) == 1 {
+	// 0: no base; 1: base set before anything is emitted; 2: base set again behind the prefix
+	setbase := vp.Choose("setbase", 3)
+	if setbase >= 1 {
 		base := vp.U32("base")
 		vp.Assume(base < 1<<24 && base&0xFFFF <= 0xFF00)
 		h.E.SetBase(base)
@@ -194,6 +196,12 @@ func New19(cp, pre int) *H19 {
 	}
 	h.E.EmitBytes(pb)
 	h.Dry.EmitBytes(pb)
+	if setbase == 2 {
+		base2 := vp.U32("base2")
+		vp.Assume(base2 < 1<<24 && base2&0xFFFF <= 0xFF00)
+		h.E.SetBase(base2)
+		h.Dry.SetBase(base2)
+	}
 	h.E.Label("L0")
 	h.Dry.Label("L0")
 	h.n0, h.pc0 = h.E.Len(), h.E.PC()
@@ -233,6 +241,21 @@ func (h *H19) Check(refusedReal, refusedDry bool, L int, guardRefuse bool) {
 		vp.Assert("refused-labels-unchanged", ok == h.labOK0 && l == h.lab0)
 		_, ok2 := e.GetLabel("L1")
 		vp.Assert("refused-defines-no-label", !ok2)
+		// nothing of the refused call is left behind: the program (a prefix and a label, no
+		// references) still finalizes, and finalizing touches nothing
+		var ferr error
+		ffail := vp.Try(func() { ferr = e.Finalize() })
+		vp.Assert("refused-call-leaves-no-reference-behind", !ffail && ferr == nil)
+		same = len(e.Bytes()) == h.n0
+		if same {
+			for i := 0; i < h.n0; i++ {
+				if e.Bytes()[i] != h.before[i] {
+					same = false
+				}
+			}
+		}
+		vp.Assert("refused-bytes-unchanged", same)
+		vp.Assert("nothing-written-behind-the-target-window", full[h.Cap] == h.tail[0] && full[h.Cap+1] == h.tail[1] && full[h.Cap+2] == h.tail[2])
 		vp.Reach("refused")
 		return
 	}
